@@ -63,6 +63,7 @@ def run_c10(ctx, fa):
     while len(cases) < n and tries < 6 * n:
         tries += 1
         g = gen.Gen(rnd, logical=rnd.random() < 0.25, max_depth=rnd.choice([1, 2, 2, 3]), big=rnd.random() < 0.15)
+        g.mapping_views = True
         ir = g.schema()
         raw = g.render(ir)
         try:
